@@ -321,3 +321,27 @@ func Dump(dir string, keepDLEQ bool) (string, error) {
 	}
 	return sb.String(), nil
 }
+
+// NewMintWith finishes the construction of a partially filled MintW (Dir, Cfg, LN, OnLoad set by the caller).
+func NewMintWith(m *MintW) (*MintW, error) {
+	if m.Name == "" {
+		m.Name = "a"
+	}
+	if err := os.MkdirAll(m.Dir, 0o700); err != nil {
+		return nil, err
+	}
+	if _, err := os.Stat(filepath.Join(m.Dir, "mint.sqlite.db")); err != nil {
+		db, err := sqlite.InitSQLite(m.Dir)
+		if err != nil {
+			return nil, err
+		}
+		if err := db.SaveSeed(FixedSeed(m.Name)); err != nil {
+			return nil, err
+		}
+		db.Close()
+	}
+	if err := m.Load(false, m.FeePpk); err != nil {
+		return nil, err
+	}
+	return m, nil
+}
